@@ -14,9 +14,17 @@ for d in sorted(glob.glob(V + "/seeded/*/")):
 hist = json.load(open(V + "/seeded/HISTORY.json")) if os.path.exists(V + "/seeded/HISTORY.json") else {}
 metas = [json.load(open(d + "meta.json")) for d in sorted(glob.glob(V + "/seeded/C*-seed*/"))]
 own_now = sum(1 for m in metas if m.get("own_property_check_reports_it"))
-r1, r2 = hist.get("round1", {}), hist.get("round2", {})
-missed2 = r2.get("own_check_missed_at_first_evaluation", [])
-still = r2.get("still_missed_by_own_check", {})
+r1 = hist.get("round1", {})
+rounds = sorted(k for k in hist if k.startswith("round") and k != "round1")
+still = {}
+bul = []
+for k in rounds:
+    r = hist[k]; still.update(r.get("still_missed_by_own_check", {}))
+    missed = r.get("own_check_missed_at_first_evaluation", [])
+    bul.append("* **Round %s** (%s): **%d of %d were missed by their own property's check at first evaluation** (%s)%s. Rules added in response: %s." % (
+        k[5:], r.get("note", ""), len(missed), r.get("seeds", 60), ", ".join(missed),
+        ("; reported only by another property's check: " + ", ".join(r["reported_only_by_another_property_at_first_evaluation"])) if r.get("reported_only_by_another_property_at_first_evaluation") else "",
+        ", ".join(r.get("rules_added_in_response", [])) or "-"))
 txt = """Fresh sub-agents (one per property and round) were given only the property text and a
 scratch git worktree of /repo - nothing from /verif - and asked for changes
 that break the property, compile, pass the whole pinned suite and need
@@ -24,32 +32,23 @@ something specific to manifest, each with a demonstration. Every seed below
 was confirmed by us in a scratch worktree (`tools/confirm_seed.py`: demo passes
 without the change; with it the tree builds, the pinned suite passes, the demo
 fails) and evaluated with `tools/eval_seed.sh` (apply to /repo, run every
-check, `git checkout -- .`). Each is stored as `seeded/<id>/{patch.diff,
+check, `git checkout -- .`) or its parallel equivalent `tools/eval_par.py`
+(scratch copy per seed). Each is stored as `seeded/<id>/{patch.diff,
 demo_test.go.txt | demo/, meta.json}`; `tools/refresh_seeds.py` re-evaluates
 all of them against the current checks and rewrites the "rules" column.
 
-%d seeds in two rounds of 60 (3 per property and round).
+%d seeds in %d rounds of 60 (3 per property and round). Every round is an
+out-of-sample measurement of the checks as strengthened after the previous one.
 
 * **Round 1, first evaluation (before any strengthening): the property's own
   check reported %d of 60; %d were reported by no check at all.** A
   *necessary-condition* rule was added for each miss (never a special case of
   the seed); afterwards all 60 were reported by their own check.
-* **Round 2** (new agents, told which round-1 changes were "already taken" and
-  to think about 32-bit builds, the debug tag, integer width, aliasing and
-  state between calls) measured the strengthened checks out of sample:
-  **%d of 60 were missed by their own property's check at first evaluation**
-  (%s); two of those were reported by another property's check. The misses
-  fall into four classes, each answered by one generic rule: state kept
-  between calls (R-STATELESS on every anchored function), 64-bit words routed
-  through int/uint (R-WORDWIDTH, R-TABLEWIDTH, R-CONSTWIDTH - decided from the
-  types, so the amd64 quick tier reports a 386-only defect), positions
-  narrowed below their source width (R-IDXWIDTH, narrowing clause of
-  R-RANKWORD), results aliasing inputs or tables (R-RESULT-FRESH in C19,
-  R-TABLE-PRIVATE in C05).
+%s
 * **Today the property's own check reports %d of %d.** Not reported: %s.
-  Both lie in clauses C03 declares undecided (numeric closed forms; whether a
-  debug contract is implied by validity); no sound structural rule was found
-  and none was faked.
+  These lie in clauses their property declares undecided (for C03: numeric
+  closed forms; whether a debug contract is implied by validity); no sound
+  structural rule was found and none was faked.
 
 Honest reading: a good third of the detections are by *restructuring* -
 the seed replaced a loop or an expression by a different construct and a
@@ -60,9 +59,8 @@ of the same shape; section 7.1 measures exactly that.
 
 | seed | change | needs | rules (checks) | history |
 |---|---|---|---|---|
-""" % (len(rows), r1.get("own_check_reported_at_first_evaluation", 0), r1.get("no_check_reported_at_first_evaluation", 0),
-       len(missed2), ", ".join(missed2), own_now, len(rows),
-       "; ".join("%s" % k for k in still)) + "\n".join(rows) + "\n"
+""" % (len(rows), 1 + len(rounds), r1.get("own_check_reported_at_first_evaluation", 0), r1.get("no_check_reported_at_first_evaluation", 0),
+       "\n".join(bul), own_now, len(rows), "; ".join("%s" % k for k in still)) + "\n".join(rows) + "\n"
 s = open(V + "/DESIGN.md").read()
 if "SEEDED_TABLE_PLACEHOLDER" in s:
     s = s.replace("SEEDED_TABLE_PLACEHOLDER", "<!-- seeded:begin -->\n" + txt + "<!-- seeded:end -->")
